@@ -493,6 +493,10 @@ class SimpleCorrelator(AbstractCorrelator):
             and str(submit_sm.sequence_num) in self._segment_store.keys()
         ):
             error_code: int = receipt_dict.get('err', DLR_ERROR_OTHER_ERROR)
+            if not 0 <= error_code < STATUS_SENT:
+                # The receipt text may carry any integer; values beyond the range of error codes
+                # would be taken for the internal status markers (sending, sent, expired, failed)
+                error_code = DLR_ERROR_OTHER_ERROR
             ref_num, seq_num = self._segment_store[str(submit_sm.sequence_num)]
             segment_status: Optional[SegmentStatus] = self._segment_status_store.get(str(ref_num))
             if segment_status:
